@@ -1,16 +1,17 @@
 SPECIFICATION Spec
 CONSTANTS Thr = {t1,t2,t3}
  Calls = 2
- ProcScope = "global"
+ ProcScope = "thread"
  DtorLocked = FALSE
  UsesPlanner = FALSE
  PolyProc = "immortal"
- PolyShare = FALSE
+ PolyShare = TRUE
  TableScope = "proc"
  TempScope = "call"
  DtorFrees = "all"
 INVARIANT Deterministic
 INVARIANT TablesAlive
+INVARIANT PolyProcAlive
 INVARIANT ScratchPrivate
 INVARIANT PlannerExclusive
 PROPERTY AllDone
